@@ -404,10 +404,10 @@ Qed.
 Lemma kk_queue_send e d : kk (queue_send e d).
 Proof.
   apply kk_of; [apply keeps_queue_send|]. intros X w0 Hg0 H20. unfold queue_send.
-  assert (Hg : GP X (ghost (GQueue e d) w0)) by (eapply same_G; [apply n_ghost|exact Hg0]).
-  assert (H2 : G2 (ghost (GQueue e d) w0)) by (eapply same_G2; [apply n_ghost|exact H20]).
+  assert (Hg : GP X (ghost (GQueue e d) w0)) by (apply GP_ghost; exact Hg0).
+  assert (H2 : G2 (ghost (GQueue e d) w0)) by (apply (G2_tasks_only w0); [exact H20|reflexivity..]).
   revert Hg H2. generalize (ghost (GQueue e d) w0). clear w0 Hg0 H20. intros w Hg H2. unfold queue_core.
-  destruct (t_collect (cfg w) =? 0); [eapply same_G2; [apply n_send_sd|]; eapply same_G2; [apply n_ghost|exact H2]|].
+  destruct (t_collect (cfg w) =? 0); [eapply same_G2; [apply n_send_sd|]; apply (G2_tasks_only w); [exact H2|reflexivity..]|].
   match goal with |- G2 (match ?o with Some _ => _ | None => _ end) => destruct o as [[c co]|] end.
   - apply (G2_tasks_only w); [exact H2|reflexivity..].
   - destruct (call_later (t_collect (cfg w)) (HCollector (next_id w)) w) as [tid w1] eqn:E.
@@ -630,8 +630,9 @@ Lemma kk_message_received m a mc : kk (message_received m a mc).
 Proof.
   intros X w Hg. unfold message_received. destruct (negb (is_sd_message m)); [exact Hg|].
   destruct (parse_sd (m_payload m)) as [[h r]|]; [|exact Hg].
-  destruct (check_received (sess w) a mc (sd_reboot h) (m_sess m)) as [rb s'].
-  assert (Hg1 : GG X (set_sess s' w)) by (eapply GG_same; [apply n_set_sess|exact Hg]).
+  pose proof (n_set_sess_rx w a mc (sd_reboot h) (m_sess m)) as Hrx.
+  destruct (check_received (sess w) a mc (sd_reboot h) (m_sess m)) as [rb s']. cbn [snd] in Hrx.
+  assert (Hg1 : GG X (set_sess s' w)) by (eapply GG_same; [exact Hrx|exact Hg]).
   assert (Hg2 : GG X (if rb then reboot_detected a (set_sess s' w) else set_sess s' w)).
   { destruct rb; [apply kk_reboot_detected|]; exact Hg1. }
   destruct (resolve_sd h); [apply kk_sd_message_received|]; exact Hg2.
@@ -764,7 +765,7 @@ Qed.
 Lemma GG_run_ready : forall n w, GG [] w -> GG [] (run_ready n w).
 Proof. induction n as [|n IH]; intros w Hg; [exact Hg|]. rewrite run_ready_step. apply IH, GG_lstep1, Hg. Qed.
 
-Definition all_notexp (hs : list handle) : Prop := Forall (fun h => notexp_b h = true) hs.
+Definition all_notexp (hs : list handle) : Prop := Forall (fun h => soon_ok h = true) hs.
 
 Lemma GG_arrivals : forall hs w, all_notexp hs -> GG [] w -> GG [] (fold_left (fun acc h => call_soon h acc) hs w).
 Proof.
@@ -786,8 +787,8 @@ Proof.
     apply forallb_forall. intros x Hx. apply in_map_iff in Hx. destruct Hx as (t & <- & _). reflexivity.
 Qed.
 
-Lemma split_arrived_notexp : forall t evs a l, Forall (fun e => notexp_b (snd e) = true) evs -> split_arrived t evs = (a, l) ->
-  all_notexp (map snd a) /\ Forall (fun e => notexp_b (snd e) = true) l.
+Lemma split_arrived_notexp : forall t evs a l, Forall (fun e => soon_ok (snd e) = true) evs -> split_arrived t evs = (a, l) ->
+  all_notexp (map snd a) /\ Forall (fun e => soon_ok (snd e) = true) l.
 Proof.
   induction evs as [|e evs IH]; intros a l Hf H; cbn [split_arrived] in H.
   - injection H as <- <-. split; constructor.
@@ -797,7 +798,7 @@ Proof.
     + injection H as <- <-. split; [constructor|exact Hf].
 Qed.
 
-Theorem GG_run : forall fuel events t_end rv w, Forall (fun e => notexp_b (snd e) = true) events -> GG [] w ->
+Theorem GG_run : forall fuel events t_end rv w, Forall (fun e => soon_ok (snd e) = true) events -> GG [] w ->
   GG [] (fst (run fuel events t_end rv w)).
 Proof.
   induction fuel as [|f IH]; intros events t_end rv w Hev Hg; cbn [run fst]; [exact Hg|].
@@ -810,7 +811,7 @@ Proof.
   apply IH; [exact Hev|]. destruct Hg as [A [B C]]. split; [apply GP_set_now; exact A|split; [exact B|exact C]].
 Qed.
 
-Lemma d_event_in_notexp s e : d_event_in s = Some e -> notexp_b (snd e) = true.
+Lemma d_event_in_notexp s e : d_event_in s = Some e -> soon_ok (snd e) = true.
 Proof.
   intros H. unfold d_event_in in H.
   repeat match type of H with
@@ -818,7 +819,7 @@ Proof.
          | obind ?x _ = Some _ => destruct x; cbn [obind] in H; try discriminate
          end; injection H as <-; reflexivity.
 Qed.
-Lemma dmap_event_notexp : forall l evs, dmap d_event_in l = Some evs -> Forall (fun e => notexp_b (snd e) = true) evs.
+Lemma dmap_event_notexp : forall l evs, dmap d_event_in l = Some evs -> Forall (fun e => soon_ok (snd e) = true) evs.
 Proof.
   induction l as [|s l IH]; intros evs H; cbn [dmap] in H.
   - injection H as <-. constructor.
